@@ -83,6 +83,12 @@ pub fn decrypt_private_key(encrypted_data: &str, password: &str) -> Result<Strin
     let encrypted_data = hex::decode(encrypted_data)
         .map_err(|_| Error::FailedToDecryptKey(String::from("Encrypted data is invalid")))?;
 
+    if encrypted_data.len() < SALT_LENGTH + NONCE_LENGTH {
+        return Err(Error::FailedToDecryptKey(String::from(
+            "Encrypted data is too short",
+        )));
+    }
+
     let salt: [u8; SALT_LENGTH] = encrypted_data[..SALT_LENGTH]
         .try_into()
         .map_err(|_| Error::FailedToDecryptKey(String::from("Could not find salt")))?;
